@@ -308,6 +308,24 @@ class Run:
                       "share a head is not in its pool when traffic has stopped" % (n.name, origin.name), self.w)
             if pool.count(t.id()) > 1:
                 mon.v("transaction-pooled-twice", n.name, self.w)
+        # an invalid transaction (output changed after signing) must not be relayed by anybody
+        t2 = world.make_rtx(head, rng, signer="ref", exclude=set(t.refs()))
+        if t2 is not None and t2.outputs[0][0] > 1:
+            bad = ref.RTx(t2.inputs, [(t2.outputs[0][0] - 1, t2.outputs[0][1])] + list(t2.outputs[1:]))
+            n_before = len(self.relays)
+            origin.lp.network_manager.broadcast_transaction(bridge.rtx_to_real(bad))
+            if len(self.relays) > n_before:
+                self.relays.pop(n_before)
+            c["invalid_transactions_broadcast"] = c.get("invalid_transactions_broadcast", 0) + 1
+            moved = net.settle(None, fragment=rng.random() < 0.5, max_actions=50000)
+            if net.enabled():
+                mon.v("relay-traffic-does-not-die-out", "an invalid transaction is still being passed around after %d deliveries "
+                      "without timer steps" % moved, self.w)
+            if any(i == bad.id() for (_n, _k, i) in self.relays):
+                mon.v("invalid-transaction-relayed", "a transaction with a wrong signature was relayed %d times" % sum(
+                    1 for (_n, _k, i) in self.relays if i == bad.id()), self.w)
+                self.relays = [r for r in self.relays if r[2] != bad.id()]
+            self.check_escaped("invalid transaction relay")
 
 
 def scenario(rng, quick, lane):
